@@ -16,6 +16,7 @@ type specVal struct {
 	t    types.Type // may be nil for untyped literals / spec-only values
 	addr *Term      // address if the expression denotes a memory location
 	isNil bool
+	def  *Term // definedness: conjunction of "pointer dereferenced on the way is not nil" (nil = true)
 }
 
 type SpecEnv struct {
@@ -187,10 +188,14 @@ func (env *SpecEnv) evalLazy(e Expr) specVal {
 			if !ok {
 				specFail("cannot dereference %s", exprString(x.X))
 			}
-			if u.leafSort(pt) == nil {
-				return specVal{t: pt, addr: v.v.T}
+			nn := c.Neq(v.v.T, c.Nil())
+			if v.def != nil {
+				nn = c.And(v.def, nn)
 			}
-			return specVal{v: u.load(env.st, v.v.T, pt, env.guard), t: pt, addr: v.v.T}
+			if u.leafSort(pt) == nil {
+				return specVal{t: pt, addr: v.v.T, def: nn}
+			}
+			return specVal{v: u.load(env.st, v.v.T, pt, env.guard), t: pt, addr: v.v.T, def: nn}
 		case "&":
 			v := env.evalLazy(x.X)
 			if v.addr == nil {
@@ -418,11 +423,18 @@ func (env *SpecEnv) evalBinary(x *EBinary) specVal {
 func (env *SpecEnv) selectPath(base specVal, path []int) specVal {
 	u := env.u
 	cur := base
+	def := base.def
 	for _, idx := range path {
 		t := cur.t
 		// auto-deref
 		if pt, ok := derefType(t); ok {
 			cur = env.force(cur)
+			nn := u.c.Neq(cur.v.T, u.c.Nil())
+			if def == nil {
+				def = nn
+			} else {
+				def = u.c.And(def, nn)
+			}
 			cur = specVal{v: nil, t: pt, addr: cur.v.T}
 			t = pt
 		}
@@ -442,6 +454,7 @@ func (env *SpecEnv) selectPath(base specVal, path []int) specVal {
 			cur = specVal{v: cur.v.F[idx], t: ft}
 		}
 	}
+	cur.def = def
 	return cur
 }
 
@@ -598,12 +611,35 @@ func (env *SpecEnv) evalCall(x *ECall) specVal {
 			return env.iterCount()
 		case "iterkey":
 			return env.iterKey(env.evalTerm(x.Args[0]))
+		case "ifaceval":
+			_, fv := u.ifaceFns()
+			return specVal{v: leaf(c.App(fv, env.evalTerm(x.Args[0])))}
 		case "typeof":
 			ft, _ := u.ifaceFns()
 			return specVal{v: leaf(c.App(ft, env.evalTerm(x.Args[0])))}
 		case "typeid":
 			t := env.resolveType(exprString(x.Args[0]))
 			return specVal{v: leaf(u.typeID(t))}
+		case "unchanged":
+			v := env.evalLazy(x.Args[0])
+			if v.addr == nil || v.t == nil {
+				if pt, ok := derefType(v.t); ok {
+					v = env.force(v)
+					v = specVal{t: pt, addr: v.v.T}
+				} else {
+					specFail("unchanged: %s is not a location", exprString(x.Args[0]))
+				}
+			}
+			if env.old == nil {
+				return specVal{v: leaf(c.True()), t: types.Typ[types.Bool]}
+			}
+			var locs []leafLoc
+			u.leafAddrs(v.addr, v.t, &locs)
+			var parts []*Term
+			for _, l := range locs {
+				parts = append(parts, c.Eq(c.Select(u.heapArr(env.st, l.Sort), l.Addr), c.Select(u.heapArr(env.old.st, l.Sort), l.Addr)))
+			}
+			return specVal{v: leaf(c.And(parts...)), t: types.Typ[types.Bool]}
 		case "fst", "snd":
 			v := env.eval(x.Args[0])
 			i := 0
